@@ -98,6 +98,13 @@ func (g *w13Gen) genPoolCase(c *w13Case) []w13Conn {
 	}
 	expried := uint16(rapid.SampledFrom([]int{600, 600, 60, 0x7fff}).Draw(g.t, "poolExpried"))
 	waitExpried := uint16(rapid.SampledFrom([]int{0, 0, 600}).Draw(g.t, "poolWaitExpried"))
+	// holds that are written to the AOF at once (AOF channel free list / lock queues of aof_queue_size/64 entries)
+	eflag := uint16(rapid.SampledFrom([]int{0, 0, 0x0100}).Draw(g.t, "poolExpriedFlag"))
+	// queued requests that all time out in the same sweep and lock the reversed key through the shard executor
+	waitTimeout, waitFlag, linger := uint16(30), uint16(0), 0
+	if (kind == "waiters" || kind == "holds+waiters") && g.pct("poolWaitReverse", 25) {
+		waitTimeout, waitFlag, linger = 20, 0x0480, 150
+	}
 	req := 0
 	next := func() int { req++; return req }
 
@@ -123,7 +130,7 @@ func (g *w13Gen) genPoolCase(c *w13Case) []w13Conn {
 			}
 			for _, it := range items {
 				// Timeout 30 s: the request is answered when it is granted, cancelled or the case ends
-				b = append(b, g.poolFrame(protocol.COMMAND_LOCK, 0, it.key, it.id, 30, 0, waitExpried, 0, count, 0, next())...)
+				b = append(b, g.poolFrame(protocol.COMMAND_LOCK, 0, it.key, it.id, waitTimeout, waitFlag, waitExpried, 0, count, 0, next())...)
 			}
 		case kind == "wills":
 			for i, it := range items {
@@ -135,7 +142,7 @@ func (g *w13Gen) genPoolCase(c *w13Case) []w13Conn {
 			}
 		default:
 			for _, it := range items {
-				b = append(b, g.poolFrame(protocol.COMMAND_LOCK, 0, it.key, it.id, 0, 0, expried, 0, count, rcount, next())...)
+				b = append(b, g.poolFrame(protocol.COMMAND_LOCK, 0, it.key, it.id, 0, 0, expried, eflag, count, rcount, next())...)
 			}
 		}
 		return
@@ -221,7 +228,10 @@ func (g *w13Gen) genPoolCase(c *w13Case) []w13Conn {
 		pre, _ := g.renderPlain([]string{"TIMEOUT", "SET", "0"})
 		main = append(pre, main...)
 	}
-	conn := w13Conn{Kind: kindName, Hex: hex.EncodeToString(main), Note: notes}
+	conn := w13Conn{Kind: kindName, Hex: hex.EncodeToString(main), Note: notes, Linger: linger}
+	if linger > 0 {
+		conn.Note = append(conn.Note, "queued requests: Timeout 20 ms, time-out flag 0x0480 (reverse key lock when timed out)")
+	}
 	if text {
 		conn.Chunks = rapid.SampledFrom([][]int{nil, nil, {4096}, {1000}, {37}}).Draw(g.t, "poolTextChunks")
 	} else {
@@ -392,6 +402,19 @@ func w13PoolClasses(c *w13Case, add func(string)) bool {
 			add("one connection drives a per-connection pool to or beyond its capacity (n >= 64)")
 		}
 		return true
+	case c.Fanout > 0:
+		add("shape fanout")
+		add("fanout: " + c.FanKind)
+		add(fmt.Sprintf("fanout: capacity %d (aof_queue_size/64)", c.FanCap))
+		switch {
+		case c.Fanout < c.FanCap:
+			add("fanout: n < capacity")
+		case c.Fanout == c.FanCap:
+			add("fanout: n = capacity")
+		default:
+			add("one frame fans out into more commands than the shard executor's free list holds (n > aof_queue_size/64)")
+		}
+		return true
 	case c.ExecStage > 0:
 		add("shape exec-tight")
 		add([]string{"exec-tight: stage current", "exec-tight: stage unlock", "exec-tight: stage timeout", "exec-tight: stage expried"}[c.ExecStage-1])
@@ -408,4 +431,86 @@ func w13PoolClasses(c *w13Case, add func(string)) bool {
 		return true
 	}
 	return false
+}
+
+// ---------------------------------------------------------------------------------------------
+// shape "fanout": ONE frame whose value frame is a PIPELINE of N sub-frames, N around a capacity that
+// depends on the instance configuration: aof_queue_size/64 is the length of the shard executor's task
+// free list (LockDBExecutor.freeTasks), of the AOF channel's free list and of the AOF lock queue nodes.
+// The case carries its own aof_queue_size (1024 -> 16, 4096 -> 64, 65536 = the default -> 1024), so
+// that the capacity is reachable with few sub-frames as well as in the default configuration. Every
+// EXECUTE sub-frame of stage "current" queues one command on the executor of the key's shard while the
+// connection goroutine holds the shard mutex, so all N tasks exist before the first one runs; staged
+// sub-frames (unlock / expried) queue them when the stage fires. All frames are well-formed.
+
+func (g *w13Gen) genFanoutCase(c *w13Case) []w13Conn {
+	aofq := rapid.SampledFrom([]int{4096, 4096, 4096, 1024, 1024, 1024, 65536, 2048}).Draw(g.t, "fanAofQueue")
+	capacity := aofq / 64
+	n := capacity + rapid.SampledFrom([]int{-1, 0, 1, 2, 16, capacity + 1, -capacity / 2}).Draw(g.t, "fanDelta")
+	if g.known.execTasks && n > capacity {
+		g.exclude("more EXECUTE sub-frames than the executor's free list holds (known finding: free list of the shard executor overflows)")
+		n = capacity
+	}
+	stage := byte(rapid.SampledFrom([]int{0, 0, 0, 0, 1, 1, 3}).Draw(g.t, "fanStage"))
+	sub := rapid.SampledFrom([]string{"EXECUTE", "EXECUTE", "EXECUTE", "EXECUTE", "EXECUTE", "EXECUTE", "PUSH"}).Draw(g.t, "fanSub")
+	sameKey := g.pct("fanSameKey", 70)
+	nestedKind := g.n("fanNested", 0, 2)
+	key, id, other := g.keys[0], g.ids[0], g.ids[1]
+	pb := []byte{protocol.LOCK_DATA_COMMAND_TYPE_PIPELINE, 0}
+	for i := 0; i < n; i++ {
+		var body []byte
+		if sub == "PUSH" {
+			body = []byte{protocol.LOCK_DATA_COMMAND_TYPE_PUSH, 0, byte('a' + i%26), byte('0' + i%10)}
+		} else {
+			nk := key
+			if !sameKey {
+				nk = w13PoolKey(0xe1, i)
+			}
+			var nested []byte
+			switch nestedKind {
+			case 0: // refused (same key) or granted and released at once (other keys)
+				nested = g.poolFrame(protocol.COMMAND_LOCK, 0, nk, other, 0, 0, 0, 0, 0, 0, 0x1000+i)
+			case 1:
+				nested = g.poolFrame(protocol.COMMAND_UNLOCK, 0, nk, other, 0, 0, 0, 0, 0, 0, 0x1000+i)
+			default: // further holders of the key / holds on the other keys
+				nested = g.poolFrame(protocol.COMMAND_LOCK, 0, nk, w13PoolKey(0xe2, i), 0, 0, 5, 0, 0xffff, 0, 0x1000+i)
+			}
+			body = append([]byte{stage<<6 | protocol.LOCK_DATA_COMMAND_TYPE_EXECUTE, 0}, nested...)
+		}
+		var lb [4]byte
+		w13Put32(lb[:], uint32(len(body)))
+		pb = append(pb, lb[:]...)
+		pb = append(pb, body...)
+	}
+	vf := make([]byte, 4+len(pb))
+	w13Put32(vf, uint32(len(pb)))
+	copy(vf[4:], pb)
+	expried, eflag, linger := uint16(600), uint16(0), 0
+	if stage == 3 {
+		expried, eflag, linger = 20, 0x0400, 150
+	}
+	count := uint16(0)
+	if nestedKind == 2 {
+		count = 0xffff
+	}
+	b := g.poolFrame(protocol.COMMAND_LOCK, 0x20, key, id, 0, 0, expried, eflag, count, 0, 1)
+	b = append(b, vf...)
+	notes := []string{fmt.Sprintf("LOCK flag=0x20 key=focus e=%d/%#x data[PIPELINE %d x %s stage=%d nested=%d sameKey=%v] (%d bytes)", expried, eflag, n, sub, stage, nestedKind, sameKey, len(vf))}
+	if stage == 1 || g.pct("fanUnlock", 40) {
+		b = append(b, g.poolFrame(protocol.COMMAND_UNLOCK, 0, key, id, 0, 0, 0, 0, 0, 0, 2)...)
+		notes = append(notes, "UNLOCK key=focus")
+	}
+	if g.pct("fanTwice", 15) {
+		// the same fan-out once more: the free list is full now
+		b = append(b, g.poolFrame(protocol.COMMAND_LOCK, 0x20, key, id, 0, 0, expried, eflag, count, 0, 3)...)
+		b = append(b, vf...)
+		notes = append(notes, "the same LOCK again")
+	}
+	conn := w13Conn{Kind: "binary", Hex: hex.EncodeToString(b), Note: notes, Linger: linger}
+	conn.Chunks = rapid.SampledFrom([][]int{nil, nil, {64}, {64, 4096}, {4096}, {1000}}).Draw(g.t, "fanChunks")
+	c.AofQueue = aofq
+	c.Fanout, c.FanCap = n, capacity
+	c.FanKind = fmt.Sprintf("%s stage %d", sub, stage)
+	c.Shape = fmt.Sprintf("fanout:%s stage=%d n=%d capacity=%d", sub, stage, n, capacity)
+	return []w13Conn{conn}
 }
